@@ -204,6 +204,7 @@ package collection
 //@   observe Offset = old(rw.offset)
 //@   replay rw_updateOffset
 //@   replay-assume old(rw.size) <= 4 && old(rw.interval) <= 10 && now - old(rw.lastTime) <= 100
+//@   loop 1 entry [starts-at-zero] i == 0
 //@   loop 1 invariant 0 <= i && i <= span && span <= rw.size && offset == old(rw.offset) && rw.size == old(rw.size) && rw.win == old(rw.win)
 //@   loop 1 invariant rw.win.size == rw.size && rw.win.buckets == old(rw.win.buckets) && rw.offset == old(rw.offset)
 //@   loop 1 invariant forall(j, 0, rw.size, wrap(j - offset - 1, rw.size) < i ==> rw.win.buckets[j].Sum == 0.0 && rw.win.buckets[j].Count == 0)
@@ -321,6 +322,7 @@ package collection
 //@ func (*window).reduce
 //@   prop C09, C01
 //@   requires w != nil && w.size >= 1 && len(w.buckets) == w.size && start >= 0 && count >= 0
+//@   loop 1 entry [starts-at-zero] i == 0
 //@   loop 1 invariant 0 <= i && i <= count
 //@   loop 1 iteration-ensures [one-call-per-bucket-in-order] calls(fn) == 1 && arg(fn, 0) == w.buckets[(start + at_head(i)) % w.size] && i == at_head(i) + 1
 //@   ensures [none-for-empty-range] count <= 0 ==> calls(fn) == 0
@@ -434,6 +436,7 @@ package collection
 //@ func (*TimingWheel).initSlots
 //@   prop C10
 //@   requires w != nil && len(w.slots) == w.numSlots
+//@   loop 1 entry [starts-at-zero] i == 0
 //@   loop 1 invariant 0 <= i && forall(j, 0, i, w.slots[j] != nil)
 //@   ensures [every-slot-has-a-list] forall(j, 0, w.numSlots, w.slots[j] != nil)
 //@ func NewTimingWheel
@@ -483,6 +486,7 @@ package collection
 //@ func newWindow
 //@   prop C09
 //@   requires size >= 1
+//@   loop 1 entry [starts-at-zero] i == 0
 //@   loop 1 invariant 0 <= i && i <= size && len(buckets) == size && fresh(buckets) && forall(j, 0, i, buckets[j] != nil && buckets[j].Sum == 0.0 && buckets[j].Count == 0)
 //@   ensures [empty-buckets] result != nil && result.size == size && len(result.buckets) == size && forall(j, 0, size, result.buckets[j] != nil && result.buckets[j].Sum == 0.0 && result.buckets[j].Count == 0)
 //@ func NewRollingWindow
